@@ -175,6 +175,53 @@ func (m *Message) verifySignalName(name string) error {
 	return nil
 }
 
+// verifyNestedSignalNames checks the names of the signals held, at any depth,
+// by the given signal when it is a multiplexer: they must not be used by other
+// signals of the message and must be distinct among themselves.
+func (m *Message) verifyNestedSignalNames(sig Signal) error {
+	if sig.Kind() != SignalKindMultiplexer {
+		return nil
+	}
+
+	names := map[string]EntityID{sig.Name(): sig.EntityID()}
+
+	muxSigStack := newStack[Signal]()
+	muxSigStack.push(sig)
+
+	for muxSigStack.size() > 0 {
+		muxSig, err := muxSigStack.pop().ToMultiplexer()
+		if err != nil {
+			panic(err)
+		}
+
+		for tmpSigID, tmpSig := range muxSig.signals.entries() {
+			tmpName := tmpSig.Name()
+
+			if id, ok := names[tmpName]; ok && id != tmpSigID {
+				return &NameError{
+					Name: tmpName,
+					Err:  ErrIsDuplicated,
+				}
+			}
+
+			if id, err := m.signalNames.getValue(tmpName); err == nil && id != tmpSigID {
+				return &NameError{
+					Name: tmpName,
+					Err:  ErrIsDuplicated,
+				}
+			}
+
+			names[tmpName] = tmpSigID
+
+			if tmpSig.Kind() == SignalKindMultiplexer {
+				muxSigStack.push(tmpSig)
+			}
+		}
+	}
+
+	return nil
+}
+
 func (m *Message) verifySignalSizeAmount(sigID EntityID, amount int) error {
 	if amount == 0 {
 		return nil
@@ -435,6 +482,14 @@ func (m *Message) AppendSignal(signal Signal) error {
 		})
 	}
 
+	if err := m.verifyNestedSignalNames(signal); err != nil {
+		return m.errorf(&AppendSignalError{
+			EntityID: signal.EntityID(),
+			Name:     signal.Name(),
+			Err:      err,
+		})
+	}
+
 	if err := m.signalLayout.append(signal); err != nil {
 		return m.errorf(err)
 	}
@@ -457,6 +512,15 @@ func (m *Message) InsertSignal(signal Signal, startBit int) error {
 	}
 
 	if err := m.verifySignalName(signal.Name()); err != nil {
+		return m.errorf(&InsertSignalError{
+			EntityID: signal.EntityID(),
+			Name:     signal.Name(),
+			StartBit: startBit,
+			Err:      err,
+		})
+	}
+
+	if err := m.verifyNestedSignalNames(signal); err != nil {
 		return m.errorf(&InsertSignalError{
 			EntityID: signal.EntityID(),
 			Name:     signal.Name(),
